@@ -153,6 +153,9 @@ class IOBase(Communicator):
         self._conn.disconnect()
         self._conn = None
         self.is_connected = False
+        if not self._last_error:
+            # the next successful connect is a reconnect: callbacks have to be called
+            self._last_error = 'disconnected'
 
     def doPoll(self):
         self.read_is_connected()
